@@ -491,3 +491,43 @@ def purge_state_trace(args):
         return {'scen': scen, 'states': states, 'nops': len(ops), 'exit': res['exit'], 'outside_intact': box.outside_intact()}
     finally:
         box.destroy()
+
+
+# ---- trash-put running next to trash-empty DAYS (spec/PutEmpty.tla, WithDays) ----------------------------------
+
+PUT_VS_EMPTY = {'tdir_exists': True,
+                'pre_info': [('t1', b'old-a'), ('t1', b'old-b'), ('t1', 'n1')],
+                'pre_pay': [('t1', b'old-a', 'file'), ('t1', b'old-b', 'dir'), ('t1', 'n1', 'file')]}
+
+
+def run_put_vs_empty(args):
+    """one lock-step schedule of a real trash-put (p1) and a real `trash-empty 30` (p2) on one trash directory that holds
+    old entries; -> the projected states after every step and at the end (pre-existing entries left out: purging them is
+    the emptier's job)"""
+    kind, preempts, seed = args
+    runner.prepare()
+    box = make_box([kind], PUT_VS_EMPTY, seed)
+    try:
+        steps, results, creators = oplevel.run_schedule(
+            box, ['p1', 'p2'], oplevel.policy_from_preemptions({int(k): v for k, v in preempts.items()}),
+            commands={'p2': ('trash-empty', ['30'])})
+
+        pre_abs = set((k[0], box.slot_abs(k[2][:-10] if k[1] == 'info' and k[2].endswith(b'.trashinfo') else k[2])) for k in box.base)
+
+        def own_only(st):
+            st = dict(st, clobbered=False, notes=[])
+            for key in ('info', 'pay'):
+                st[key] = {t: {a: v for a, v in m.items() if (t, a) not in pre_abs} for t, m in st[key].items()}
+            return st
+        obs = [{'state': own_only(s['state']), 'done': {}, 'res': {}, 'k': s['k'], 'p': s['p'], 'op': s['op'], 'raw': s['raw']} for s in steps]
+        st = own_only(box.project(creators))
+        r1 = results['p1']
+        obs.append({'state': st, 'done': {'p1': True}, 'res': {'p1': 'ok' if r1['exit'] == 0 else 'fail'}, 'final': True,
+                    'exit': {p: r['exit'] for p, r in results.items()},
+                    'stderr': (r1['stderr'][-200:] + results['p2']['stderr'][-200:]).decode('utf-8', 'replace')})
+        old_left = sorted(k[2].decode('latin-1') for k in box.base if os.path.lexists(os.path.join(os.fsencode(box.tdirs[k[0]]), os.fsencode(k[1]), k[2])))
+        hung = [p for p, r in results.items() if r.get('hung') or r.get('timeout')]
+        return {'kind': kind, 'preempts': preempts, 'obs': obs, 'nsteps': len(steps), 'hung': hung, 'old_left': old_left,
+                'p2_exit': results['p2']['exit']}
+    finally:
+        box.destroy()
